@@ -1,6 +1,7 @@
 package scen
 
 import (
+	"encoding/binary"
 	"bytes"
 	"fmt"
 	"path"
@@ -385,6 +386,45 @@ func (s *P2Set) ApplyDmg(fs *envfs.FS, d Dmg, seed int64) {
 		nb := append([]byte{}, b...)
 		nb[len(nb)-1-d.At%8] ^= 0x10
 		fs.Put(p, nb)
+	case "pktrec":
+		// damage to one packet of a recovery file: d.At = packet index, d.N = what is hit
+		if d.F >= len(s.RecFiles) {
+			return
+		}
+		p := s.RecFiles[d.F]
+		b, ok := fs.Get(p)
+		if !ok {
+			return
+		}
+		bd := rpar2.PacketBoundaries(b)
+		if d.At+1 >= len(bd) {
+			return
+		}
+		nb := append([]byte{}, b...)
+		off, end := bd[d.At], bd[d.At+1]
+		setLen := func(l int) { binary.LittleEndian.PutUint64(nb[off+8:off+16], uint64(l)) }
+		switch d.N {
+		case 0: // length field now also covers the next packet
+			if d.At+2 < len(bd) {
+				setLen(bd[d.At+2] - off)
+			} else {
+				setLen(end - off + 4)
+			}
+		case 1: // length field covers the rest of the file
+			setLen(len(b) - off)
+			if d.At+2 >= len(bd) {
+				return
+			}
+		case 2:
+			nb[end-1] ^= 0x04
+		case 3:
+			nb[off+20] ^= 0x80
+		case 4:
+			nb[off+3] ^= 0x01
+		case 5:
+			setLen(end - off - 4)
+		}
+		fs.Put(p, nb)
 	case "truncrec":
 		if d.F >= len(s.RecFiles) {
 			return
@@ -425,6 +465,21 @@ func RecMenu(nRec int) []Dmg {
 		m = append(m, Dmg{Op: "badrec", F: v}, Dmg{Op: "fliprec", F: v}, Dmg{Op: "truncrec", F: v}, Dmg{Op: "emptyrec", F: v})
 	}
 	m = append(m, Dmg{Op: "foreignrec"})
+	return m
+}
+
+// PktRecMenu lists, for recovery file v, every (packet, header/body damage kind) pair.
+func (s *P2Set) PktRecMenu(v int) []Dmg {
+	var m []Dmg
+	if v >= len(s.RecFiles) {
+		return m
+	}
+	n := len(rpar2.PacketBoundaries(s.FS0.Files[s.RecFiles[v]])) - 1
+	for k := 0; k < n; k++ {
+		for kind := 0; kind <= 5; kind++ {
+			m = append(m, Dmg{Op: "pktrec", F: v, At: k, N: kind})
+		}
+	}
 	return m
 }
 
